@@ -89,7 +89,10 @@ Next ==
   /\ CASE Ev.ev = "reset" -> prev' = <<>> /\ hasPrev' = TRUE
        [] Ev.ev \in {"lookup", "send"} ->
             /\ IF Ev.ev = "lookup" THEN LookupRules(Ev) /\ ISpecOK(Ev) ELSE SendRules(Ev)
-            /\ NoRegress(prev, Ev.cache)
+            \* two consecutive dumps bracket one installation only if the call asked PD at most once: a call that reloads
+            \* several times (a send retried under stale PD answers) may first install a newer overlapping region, which removes
+            \* the old description, and then an older one of the removed region - nothing is "installed over" anything then
+            /\ ((IF "loads" \in DOMAIN Ev THEN Ev.loads ELSE 0) <= 1 => NoRegress(prev, Ev.cache))
             /\ Check(IndexOK(Ev.cache), "the ordered index holds two entries with one start key or is out of order", Ev.cache)
             /\ prev' = Ev.cache /\ UNCHANGED hasPrev
        [] Ev.ev = "cacheop" -> prev' = Ev.cache /\ UNCHANGED hasPrev
